@@ -4,6 +4,7 @@
 package chain
 
 import (
+	"bytes"
 	"context"
 	"encoding/json"
 	"fmt"
@@ -514,12 +515,20 @@ func (t *Transaction) UnmarshalCanotoFrom(r canoto.Reader) error {
 		if err != nil {
 			return fmt.Errorf("failed to parse action %x at index %d: %w", actionBytes, i, err)
 		}
+		// the parsed action must re-encode to the bytes it was parsed from, otherwise two
+		// different byte strings would decode to the same transaction
+		if !bytes.Equal(action.Bytes(), actionBytes) {
+			return fmt.Errorf("%w: non-canonical encoding of action %x at index %d", ErrInvalidObject, actionBytes, i)
+		}
 		actions[i] = action
 	}
 
 	auth, err := parser.ParseAuth(serializeTx.Auth)
 	if err != nil {
 		return fmt.Errorf("failed to parse auth %x: %w", serializeTx.Auth, err)
+	}
+	if !bytes.Equal(auth.Bytes(), serializeTx.Auth) {
+		return fmt.Errorf("%w: non-canonical encoding of auth %x", ErrInvalidObject, serializeTx.Auth)
 	}
 
 	// We do not assume that the auth field is non-zero le
